@@ -288,6 +288,18 @@ pub const fn align_offset<T>(current_offset: u32) -> u32 {
   (current_offset + alignment - 1) & !(alignment - 1)
 }
 
+/// Returns `align_offset::<T>(current_offset) + len`, or `None` if that does not fit in a `u32`.
+#[inline]
+const fn checked_end<T>(current_offset: u32, len: u64) -> Option<u32> {
+  let alignment = core::mem::align_of::<T>() as u64;
+  let end = ((current_offset as u64 + alignment - 1) & !(alignment - 1)) + len;
+  if end > u32::MAX as u64 {
+    None
+  } else {
+    Some(end as u32)
+  }
+}
+
 #[cfg(feature = "std")]
 macro_rules! write_byte_order {
   ($write_name:ident::$put_name:ident::$converter:ident($ty:ident, $endian:literal)) => {
